@@ -50,6 +50,34 @@ theorem average_by_error_value (sqrt : K → K) (s : State K) (hs : Shape s)
       simp only [colSums, invVar, Hist.one, Hist.sq, sumL_eq_sum, List.map_map, Function.comp_def, Nat.cast_one, hW']
     · simp only [colSums, hnr, sumL_eq_sum]
 
+
+/-- `average_weighted_by_error()` succeeds on every well-shaped state in which no error entry is zero and no bin has
+inverse-variance weights cancelling to zero -/
+theorem average_by_error_succeeds (sqrt : K → K) (s : State K) (hs : Shape s)
+    (h1 : (s.err.any fun r => r.any isZero) = false)
+    (h3 : (colSums (invVar s)).any isZero = false) :
+    (step sqrt s .averageByErr).2 = none := by
+  simp only [step]
+  unfold averageByErr
+  rw [if_neg (by simp [h1])]
+  rw [if_neg (by simp [sameShape_of_rowsOK hs.err hs.hist, sameShape_of_rowsOK hs.sys hs.hist])]
+  have h3' : (colSums (s.err.map (fun r => r.map (fun e => (Hist.one : K) / Hist.sq e)))).any isZero = false := by
+    simpa only [invVar, Hist.one, Hist.sq, Nat.cast_one] using h3
+  simp only [h3']
+  simp
+
+/-- **`average_weighted_by_error()`**: success and value together -/
+theorem average_by_error_spec (sqrt : K → K) (s : State K) (hs : Shape s)
+    (h1 : (s.err.any fun r => r.any isZero) = false)
+    (h3 : (colSums (invVar s)).any isZero = false) :
+    let r := step sqrt s .averageByErr
+    r.2 = none ∧ r.1.nHist = 1 ∧ r.1.nBins = s.nBins ∧
+    r.1.hist = [(List.range s.nBins).map (fun j => wmean (col (invVar s) j) (col s.hist j))] ∧
+    r.1.err = [(List.range s.nBins).map (fun j => sqrt (1 / (col (invVar s) j).sum))] := by
+  have hok := average_by_error_succeeds sqrt s hs h1 h3
+  obtain ⟨a, b, _, d, e, _, _⟩ := average_by_error_value sqrt s hs hok
+  exact ⟨hok, a, b, d, e⟩
+
 end field
 
 /-- non-vacuity: contents 1 and 3 with errors 1 and 2 (weights 1 and 1/4): the call succeeds, mean (1 + 3/4)/(5/4) = 7/5,
